@@ -54,6 +54,10 @@ PROPS["C03"] = {
     "explanation": "Theorems (for every source, every delimiter configuration, every way the scan ends): the lexer's emit/ignore events, read in order, are adjacent ranges starting at 0 and every token value is exactly the source slice of its range (global invariant over all state functions); the trim lengths are exactly the maximal runs of space/tab/CR/LF. Tie: token streams of the real lexer vs the model; direct oracle on rendered output.",
 }
 
+PROPS["C04"] = evalprop("expressions", "Stream 'exprs' (constructive direct oracle + model): typed expression trees of depth 1-4 over Go ints (variables, slice elements, struct fields, call results, parenthesised), float literals and a float variable, strings and bools, with recording probe functions as boolean operands; the generator evaluates each tree by the documented rules and prints it with exactly the parentheses the documented precedence/associativity require, plus random redundant ones, every binary operator either spaced on both sides or on none (a-1, (a)-1, f(x)-1, li[0]-1), && || ! also spelt and/or/not; expected rendered value and probe log (short-circuit) are checked against the real engine and the model. Stream 'lex': expression sources through the lexer model (sign vs operator).")
+PROPS["C04"]["lean_modules"] = ["C04"]
+PROPS["C04"]["trusted_base"] = PROPS["C04"]["trusted_base"] + ["the precedence ladder of the recursive-descent expression parser is NOT modelled: it is decided by the constructive oracle (sampled, not proved)"]
+
 PROPS["C06"] = evalprop("fields", "Stream 'cache': random struct types built with reflect.StructOf (1-4 fields per struct from a small name pool so names clash, exported and unexported fields, embedded structs and embedded struct pointers nested up to 4 deep) - the index-path table of the real buildCache (hook VerifBuildCache) vs the model's buildCache, plus a direct oracle (every path is valid and leads to a field of that name). Stream 'structs' (direct oracle, no model): a value of such a type with a unique value in every leaf and nil / non-nil embedded pointers; for every field name occurring anywhere in the type and a missing one, '.Name' and '.[\"Name\"]' are rendered: an unambiguous exported name must render exactly the value stored where Go's selector rule (shallowest depth, through embedded structs and pointers) reaches and both spellings must agree; unexported and missing names and paths through nil embedded pointers must be errors; Execute must never panic.")
 PROPS["C06"]["lean_modules"] = ["C06"]
 
@@ -149,6 +153,11 @@ MANIFEST_TEXT = {
         "level": "Lean 4 theorems about the lexer model, for every source, every delimiter configuration and every way the scan ends: the emit and ignore events form a chain of adjacent ranges from offset 0, and each token's value is the verbatim source slice of its range (an invariant proved through all twelve state functions and their loops), so nothing is added, reordered or altered and every byte outside a token was dropped at one of the five ignore sites; left/right trim lengths are exactly the maximal whitespace runs. Tie: real lexer vs model token by token (hook VerifLex, tables regenerated by factgen) on generated and mutated sources under 8 delimiter families; direct oracle on rendered bytes of segment-built templates.",
         "note": "That the ranges dropped at the five ignore sites are exactly comment / marker / whitespace-run is proved for the run lengths (trim specs) and otherwise shown by the oracle; bounds of ignore ranges (a <= b) are not part of the proved invariant.",
         "technique": "Lean 4 proof (global invariant over the lexer state machine) + differential correspondence via a build-tagged hook + constructive direct oracle",
+    },
+    "C04": {
+        "level": "Lean 4 theorems: (lexer) after every token kind an operand can end with, '-' and '+' before a digit are operators, decided by the kernel over the exclusion lists regenerated from lex.go, and signArm follows those lists; (evaluator model, for all operand values and states) two ints combine integrally with truncating / and %, a zero divisor is an error, any float operand promotes, literals flagged float evaluate to floats, string + x concatenates and string - x is an error, relational operators yield bools with float promotion, && and || skip the right operand when the left decides and always yield a bool, ?: evaluates one branch. Precedence, associativity and the no-space spellings are decided by a constructive oracle over generated expression trees (the parser is not modelled), together with the model correspondence on the same cases.",
+        "note": "Partial by design: grouping is a property of the parser, which this framework exercises but does not model.",
+        "technique": "Lean 4 proof about the evaluator and lexer models + decide over regenerated facts + constructive direct oracle + differential correspondence",
     },
     "C06": {
         "level": "Lean 4 theorems: for every struct type (any fields, any nesting of embedded structs, any name clashes) every entry name -> path of the model of buildCache leads through exported embedded structs to an exported field of that name (buildCache_sound, induction on embedding depth and on the field loop), and a struct's own field is never hidden by a promoted one (direct_field_wins); on the evaluator model's resolveIndex: a.b agrees with a[\"b\"] on maps and structs, absent map keys yield nil, present entries and slice elements are returned as stored, out-of-range/negative indexes, missing fields and nil pointers are errors. Tie: the real buildCache (hook) vs the model on random reflect.StructOf types; differential execution of access-heavy programs; a direct oracle comparing '.F' / '.[\"F\"]' on generated struct values with Go's own selector rule.",
